@@ -31,44 +31,88 @@ def judge(ctx, tlc_out, cov):
     trace = os.path.join(ctx.scratch, "c16-trace.ndjson")
     ctx.run_worker(["c16-replay", "-in", tlc_out, "-trace", trace], stdout_path=summ, timeout=1800)
     s = json.load(open(summ))
-    # TLC judges every real result independently
+    # TLC judges every real result independently (in chunks: a thorough run traces tens of thousands of records)
     recs_n = s["traced"]
-    tr, fails, _notes, consumed = bc.run_trace(ctx, trace, bc.EMPTY_TABLES)
-    if consumed != recs_n:
-        raise core.Inconclusive("BuildersTrace consumed %d of %d records" % (consumed, recs_n))
-    for i, go_verdict in enumerate(s["trace_verdicts"], start=1):
-        tlc_verdict = sorted({v["clause"] for v in fails.get(i, [])})
-        if tlc_verdict != sorted(go_verdict):
-            raise core.Inconclusive("TLC and the Go comparison disagree on record %d: TLC %s, Go %s" % (i, tlc_verdict, go_verdict))
+    chunks, n = bc.split_file(trace, 3000, ctx, "c16-chunk")
+    os.remove(trace)
+    if n != recs_n:
+        raise core.Inconclusive("trace holds %d records, the worker reported %d" % (n, recs_n))
+    trs, nfailed = [], 0
+    for path, first in chunks:
+        cnt = sum(1 for _ in open(path))
+        tr, fails, _notes, consumed = bc.run_trace(ctx, path, bc.EMPTY_TABLES)
+        trs.append(tr)
+        if consumed != cnt:
+            raise core.Inconclusive("BuildersTrace consumed %d of %d records" % (consumed, cnt))
+        nfailed += len(fails)
+        for i in range(1, cnt + 1):
+            go_verdict = s["trace_verdicts"][first - 1 + i - 1]
+            tlc_verdict = sorted({v["clause"] for v in fails.get(i, [])})
+            if tlc_verdict != sorted(go_verdict):
+                raise core.Inconclusive("TLC and the Go comparison disagree on record %d: TLC %s, Go %s" % (first - 1 + i, tlc_verdict, go_verdict))
     for sig, agg in s["signatures"].items():
         ex = agg["examples"][0]
         what = {k: v for k, v in ex.items() if k not in ("S", "real")}
         ctx.failures.append({"signature": sig, "what": "%s (x%d)" % (json.dumps(what)[:500], agg["count"]),
                              "replay": {"case": ex.get("case"), "S": ex["S"]}})
-    cov["tlc_trace"] = tr
-    return s, len(fails)
+    cov.setdefault("tlc_trace", []).extend(trs)
+    return s, nfailed
 
 
 def replay(ctx):
     rp = json.load(open(ctx.replay))
     want_sig = rp["signature"]
     ctx.build_worker()
-    # Derive(S) and the modes for the stored schema set come from TLC again: the stored case is re-enumerated
-    case = rp["replay"]["case"]
-    r = ctx.run_tlc("BuildersMC", "BuildersMC16.cfg", workers=4, timeout=900)
-    one = os.path.join(ctx.scratch, "one.out")
-    n = 0
-    with open(one, "w") as out:
-        for obj in core.tagged_lines(r["out"], "CASE16"):
-            if obj["case"] == case:
-                out.write(bc.tlc_line("CASE16", obj))
-                n += 1
-    if n != 1:
-        raise core.Inconclusive("stored case not found in the enumeration")
+    # Derive(S) and the modes for the stored schema set come from TLC again
+    d = ctx.sub("replay16")
+    sj = os.path.join(d, "S.json")
+    json.dump(rp["replay"]["S"], open(sj, "w"))
+    r = ctx.run_tlc("BuildersReplayMC", "BuildersReplayMC.cfg", workers=1, timeout=600, files={"S.json": sj})
     cov = {}
-    s, _ = judge(ctx, one, cov)
+    judge(ctx, r["out"], cov)
     ctx.failures = [f for f in ctx.failures if f["signature"] == want_sig]
     return ctx.finish("model_checking", {"evaluations": 1, "distinct_nontrivial": 0}, [])
+
+
+DEEP_OBJECT_KINDS = ["alias-chain-crossing-packages-of-constant", "alias-chain-crossing-packages-of-enum", "alias-chain-crossing-packages-of-inter",
+                     "alias-chain-of-disj", "alias-of-inter", "inter"]
+DEEP_FIELD_KINDS = ["ref-to-constant-via-alias-crossing-packages", "ref-to-scalar+default", "ref-to-array", "slot+nullable", "struct+nullable",
+                    "map+default", "array+default", "scalar+constraints+default", "constant_ref+nullable", "ref-to-inter", "ref-to-disj+nullable"]
+
+
+def merge(total, s):
+    for k in ("cases", "matched", "out_of_scope", "traced"):
+        total[k] = total.get(k, 0) + s[k]
+    for k in ("per_field_kind", "per_mode", "per_object_kind", "observations_for_other_properties"):
+        d = total.setdefault(k, {})
+        for kk, v in s[k].items():
+            d[kk] = d.get(kk, 0) + v
+    total.setdefault("samples", [])
+    total["samples"] += s["samples"] or []
+
+
+def cycles_isolated(ctx, tlc_out, cov):
+    """Alias cycles: the real resolution recurses without end on them, which kills the process (not a recoverable panic).
+    Run them in a process of their own with a small stack; a crash is a C04-style observation, not a C16 verdict."""
+    import subprocess
+    summ = os.path.join(ctx.scratch, "c16-cycles.json")
+    with open(summ, "wb") as fo:
+        p = subprocess.run([ctx.worker, "c16-replay", "-in", tlc_out, "-maxstack-mb", "64"], stdout=fo, stderr=subprocess.PIPE,
+                           env=ctx.goenv(), timeout=600)
+    err = p.stderr.decode(errors="replace")
+    if p.returncode != 0 and ("stack exceeds" in err or "stack overflow" in err):
+        cov["alias_cycles"] = "3 schema sets with alias cycles run in an isolated process: FromAST does not terminate (goroutine stack exhausted); not judged"
+        cov.setdefault("observations_for_other_properties", {})["C04/BuilderGenerator.FromAST/fatal-stack-overflow/alias-cycle"] = 1
+        return None
+    if p.returncode != 0:
+        raise core.Inconclusive("isolated cycle run failed: %s" % err[-400:])
+    s = json.load(open(summ))
+    cov["alias_cycles"] = "3 schema sets with alias cycles: FromAST terminated; judged like the others"
+    for sig, agg in s["signatures"].items():
+        ex = agg["examples"][0]
+        ctx.failures.append({"signature": sig, "what": "%s (x%d)" % (json.dumps({k: v for k, v in ex.items() if k not in ("S", "real")})[:500], agg["count"]),
+                             "replay": {"case": ex.get("case"), "S": ex["S"]}})
+    return s
 
 
 def run(ctx):
@@ -76,48 +120,99 @@ def run(ctx):
         return replay(ctx)
     quick = ctx.quick()
     ctx.build_worker()
+    cov, total, tlcs = {}, {}, []
+    tlc_failed = 0
     consts = {"NSlices": NSLICES, "Slice": ctx.seed % NSLICES} if quick else {"NSlices": 1, "Slice": 0}
-    r = ctx.run_tlc("BuildersMC", "BuildersMC16.cfg", workers=8, timeout=1500, constants=consts)
-    cov = {}
-    s, tlc_failed = judge(ctx, r["out"], cov)
-    if s["cases"] != r["distinct"]:
-        raise core.Inconclusive("worker replayed %d cases for %d TLC states" % (s["cases"], r["distinct"]))
+    universes = [("pairs", "BuildersMC", "BuildersMC16.cfg", consts, None, 8)]
+    if not quick:
+        universes += [
+            ("chains", "BuildersDeepMC", "BuildersDeepMC.cfg", {"Mode": '"chains"'}, None, 8),
+            ("fields", "BuildersDeepMC", "BuildersDeepMC.cfg", {"Mode": '"fields"'}, None, 8),
+            # seeded random walks (num is per worker): every successor of every visited schema set is a case
+            ("walk", "BuildersDeepMC", "BuildersDeepMC.cfg", {"Mode": '"walk"', "MaxObjs": 5}, "num=7", 4),
+        ]
+    per_universe = {}
+    for name, module, cfg, cs, sim, workers in universes:
+        r = ctx.run_tlc(module, cfg, workers=workers, timeout=2400, constants=cs, simulate=sim, depth=7 if sim else None)
+        tlcs.append(r)
+        s, nf = judge(ctx, r["out"], cov)
+        os.remove(r["out"])
+        if not sim and s["cases"] != r["distinct"]:
+            raise core.Inconclusive("worker replayed %d cases for %d TLC states (%s)" % (s["cases"], r["distinct"], name))
+        tlc_failed += nf
+        merge(total, s)
+        per_universe[name] = {"cases": s["cases"], "judged": s["cases"] - s["out_of_scope"]}
+    # the pipeline's own derivation: ContextForLanguage(language passes + final passes) must return builders that are
+    # the derivation of the schemas it returns
+    r = ctx.run_tlc("BuildersDeepMC", "BuildersDeepMC.cfg", workers=4, timeout=600, constants={"Mode": '"pipeline"'})
+    tlcs.append(r)
+    given = os.path.join(ctx.scratch, "c16-given.ndjson")
+    ps = json.loads(ctx.run_worker(["c16-pipeline", "-in", r["out"], "-out", given]))
+    if ps["written"] == 0 or ps["written"] + ps["rejected"] != r["distinct"]:
+        raise core.Inconclusive("pipeline universe: %s for %d TLC states" % (ps, r["distinct"]))
+    r2 = ctx.run_tlc("BuildersGivenMC", "BuildersGivenMC.cfg", workers=1, timeout=900, files={"given.ndjson": given})
+    tlcs.append(r2)
+    s, nf = judge(ctx, r2["out"], cov)
+    tlc_failed += nf
+    merge(total, s)
+    per_universe["pipeline"] = {"cases": ps["cases"], "judged": s["cases"], "rejected_by_pipeline": ps["rejected"]}
+    for k, v in ps["observations"].items():
+        total["observations_for_other_properties"][k] = total["observations_for_other_properties"].get(k, 0) + v
+    if not quick:
+        r = ctx.run_tlc("BuildersDeepMC", "BuildersDeepMC.cfg", workers=1, timeout=600, constants={"Mode": '"cycles"'})
+        tlcs.append(r)
+        cycles_isolated(ctx, r["out"], cov)
+    s = total
     # vacuity: every way of covering a field, every field kind and every object kind was exercised on real code
     missing = [m for m in MODES if s["per_mode"].get(m, 0) == 0]
-    missing += [k for k in FIELD_KINDS if s["per_field_kind"].get(k, 0) == 0]
-    missing += [k for k in OBJECT_KINDS if s["per_object_kind"].get(k, 0) == 0]
+    missing += [k for k in FIELD_KINDS + ([] if quick else DEEP_FIELD_KINDS) if s["per_field_kind"].get(k, 0) == 0]
+    missing += [k for k in OBJECT_KINDS + ([] if quick else DEEP_OBJECT_KINDS) if s["per_object_kind"].get(k, 0) == 0]
     if missing:
         raise core.Inconclusive("never exercised: %s" % missing)
     binding = selftest(ctx)
-    tr = cov.pop("tlc_trace")
+    trs = cov.pop("tlc_trace")
     judged = s["cases"] - s["out_of_scope"]
     fields = sum(s["per_field_kind"].values())
+    obs = dict(s["observations_for_other_properties"])
+    obs.update(cov.pop("observations_for_other_properties", {}))
     cov.update({
-        "states": r["distinct"] + tr["distinct"],
-        "transitions": r["generated"] + tr["generated"],
+        "states": sum(r["distinct"] for r in tlcs + trs),
+        "transitions": sum(r["generated"] for r in tlcs + trs),
         "traces_validated_against_impl": s["traced"] - tlc_failed,
         "exhaustive": True,
         "evaluations": s["cases"],
         "distinct_nontrivial": judged,
         "rule": "one evaluation = one schema set (a TLC state) on which the real BuilderGenerator.FromAST ran and was compared, conjunct by "
-                "conjunct, with Derive(S), and whose real result was judged again by TLC (C16Violated); schema sets: object Main with one "
-                "field kind or an ordered pair of two of 28 field kinds x 6 surroundings (plain; alias chains whose second hop crosses into a loaded second package next to same-named objects of another kind; aliases of structs / alias chains / aliases of "
-                "enums and constants declared before their targets; non-struct objects; second package not loaded; alias of an unloaded "
-                "object); non-trivial = judged (the 'alias of an unloaded object' surroundings make FromAST panic and are out of scope: "
-                "C05 guarantees resolvable references)",
+                "conjunct, with Derive(S), and whose real result was judged again by TLC (C16Violated). Universe 'pairs': object Main with one "
+                "field kind or an ordered pair of two of 28 field kinds x 6 surroundings (plain; alias chains whose second hop crosses into a "
+                "loaded second package next to same-named objects of another kind; aliases of structs / alias chains / aliases of enums and "
+                "constants declared before their targets; non-struct objects; second package not loaded; alias of an unloaded object)%s. "
+                "Universe 'pipeline': 2 schema sets x 7 lists of final passes (prefix_objects_names, retype_field, omit, rename_object, omit_fields) x 5 "
+                "languages through the real codegen.Pipeline.ContextForLanguage: the builders it returns against the schemas it returns. "
+                "Non-trivial = judged (schema sets with a dangling object-level alias make FromAST panic and are out of scope: C05 guarantees "
+                "resolvable references)" % (
+                    "" if quick else "; thorough adds 'chains' (reference chains of 1..4 hops over three packages, third loaded or not, hop names "
+                    "plain / letter-case variants / identical across packages, 10 terminal kinds, decoys of another kind under the same or a "
+                    "case-variant name, a twin alias, a struct referring to the chain head as required / optional / array / map), 'fields' (33 base "
+                    "field types x required x nullable x default x constraints x 4 schema metadata / struct hint settings), 'walk' (tlc -simulate "
+                    "seeded by --seed: schema sets grown to 5 objects from {Foo,foo,FOO,Bar} x {p,q,r} x 40 type templates, every successor a "
+                    "case) and 'cycles' (alias cycles, isolated process)"),
+        "per_universe": per_universe,
         "fields_judged": fields,
         "per_field_kind": s["per_field_kind"], "per_mode": s["per_mode"], "per_object_kind": s["per_object_kind"],
         "out_of_scope": s["out_of_scope"],
-        "observations_for_other_properties": s["observations_for_other_properties"],
+        "observations_for_other_properties": obs,
         "binding_selftest": binding,
         "samples": (s["samples"] or [])[:2] or [{"note": "no sample drawn"}],
-        "checker_cmd": "tlc BuildersMC/BuildersMC16.cfg (%s); worker c16-replay; tlc BuildersTrace" % (
-            "pairs slice %d/%d" % (ctx.seed % NSLICES, NSLICES) if quick else "all pairs"),
+        "checker_cmd": "tlc BuildersMC/BuildersMC16.cfg (%s)%s; worker c16-replay; tlc BuildersTrace" % (
+            "pairs slice %d/%d" % (ctx.seed % NSLICES, NSLICES) if quick else "all pairs",
+            "" if quick else "; tlc BuildersDeepMC chains, fields, cycles; tlc -simulate BuildersDeepMC walk -seed %d" % ctx.seed),
     })
     return ctx.finish("model_checking", cov, [
         "reading rule: an optional (not required or nullable) reference to a constant may be an option or a constructor constant",
         "comments and the order of builders/options are not compared (the property does not mention them)",
         "references are followed through at most 8 aliases",
+        "objects whose type is an intersection, a disjunction, an array ... are not structs (no builder), whatever they are composed of",
     ])
 
 
